@@ -49,6 +49,7 @@ func zzQ2() int64 { return 257 }
 //verif:stub-symbolic github.com/tjfoc/gmsm/sm3.Sm3Sum zzStubSm3Sum02
 //verif:stub-symbolic github.com/tjfoc/gmsm/sm2.kdf zzStubKdf02
 //verif:unwind 200
+//verif:budget 1800
 func zzH_c02_roundtrip() {
 	Ls := []int{1, 2}
 	if vTier() == 1 {
